@@ -6,7 +6,7 @@ import os
 VERIF = os.path.dirname(os.path.dirname(os.path.abspath(__file__)))
 
 CLAIMED = {
-    "C01": dict(text="Coq theorems (22) for arbitrary mode lists, fused groups, stacks and sizes: the constructor's fuse plan never fails, equals the "
+    "C01": dict(text="Coq theorems for arbitrary mode lists, fused groups, stacks and sizes: the constructor's fuse plan never fails, equals the "
                      "occurrence-counting spec plan and fills every position by its own loader or the winning joint load; __getitem__ equals the spec "
                      "sample position by position ('index' gives i, named items the loader's value alone or jointly, ctx.k what was recorded since a "
                      "fresh ctx), bare value for one item / tuple for several, ctx appended iff requested and holding only this call's keys, every "
@@ -20,12 +20,13 @@ CLAIMED = {
                      "nth k (map_of s) for -len <= k < len (map_of = composition of the layers' index maps), len = length of the map, "
                      "balanced concat round-robins, bisect lookup is the inverse of the cumulative sizes (also negative k), getall = map of "
                      "getitem (fast and slow path of utils.getall), root / wrapper list / wrapper lookup / dispose through every linear "
-                     "chain; getall over a balanced concat is proved NOT to agree (getall_balanced_refuted, a recorded known finding). "
+                     "chain, attribute delegation resolves to the nearest provider link by link (dispose / worker_init reach every root once); a balanced "
+                     "concat no longer offers getall_* (repaired), so utils.getall over it loads sample-wise and agrees. "
                      "Model tied to /repo by resolving every index of random stacks on the real classes every run.",
                 ref="2 C02", note="Coq kernel+vm_compute; hand-written model coq/C02/Model.v; torch Subset/ConcatDataset constructors and "
                 "bisect trusted; arbitrary attribute delegation exercised for a few names only",
                 technique="Coq proofs (structural induction over dataset stacks) over a hand-written model + vm_compute correspondence with the real dataset classes"),
-    "C03": dict(text="Coq theorems (41) for every class layout, size, parameter and draw sequence: class filter = filter of the ids in original "
+    "C03": dict(text="Coq theorems for every class layout, size, parameter and draw sequence: class filter = filter of the ids in original "
                      "order; index/percent ranges are contiguous blocks and complementary ranges partition the dataset for every bound incl. "
                      "0 and 1; shuffle is a permutation; sort-by-class is THE stable sort (Permutation + sorted + ties in original order, unique); "
                      "intra-class shuffle keeps the class sequence; repeat = whole round-robin copies with (k-1)n < m <= kn; oversampling keeps all, "
@@ -60,7 +61,7 @@ CLAIMED = {
                 ref="2 C07", note="Coq kernel+vm_compute; translator harness/translate_rng.py (fail-closed) trusted modulo the live-tree "
                 "comparison; torchvision/PIL determinism for equal draws observed, not proved",
                 technique="Coq proof (nested induction over object trees) over a table regenerated from source by an ast translator + finite exhaustive table check by vm_compute + live differential runs"),
-    "C08": dict(text="Coq theorems (9) over the shared provenance theory and the wrapper table REGENERATED from /repo's sources on every run: for a "
+    "C08": dict(text="Coq theorems over the shared provenance theory and the wrapper table REGENERATED from /repo's sources on every run: for a "
                      "closed table and any well-formed seeded wrapper, after EVERY history of earlier getitems the draws for item i come from "
                      "Inj(seed+i) only (seeded_wrapper_pure, access_sequence_pure, any_two_copies_agree, stack_pure for several seeded layers), "
                      "seed+i is injective and no generator serves two indices; wrapper_table_closed by vm_compute on the regenerated table. Tied "
@@ -68,7 +69,7 @@ CLAIMED = {
                      "random access orders with repeats, two instances under different global states with tripwire; thorough: DataLoader with 0-3 workers.",
                 ref="2 C08 / 7.16", note="Coq kernel+vm_compute; translator harness/translate_rng.py (fail-closed); object graphs are trees; pixel determinism observed",
                 technique="Coq proof (induction over access histories and object trees) over a table regenerated from source + finite table check by vm_compute + live differential runs"),
-    "C09": dict(text="Coq theorems (9) over the shared provenance theory and the wrapper / collator / dataset-class tables regenerated from source: for "
+    "C09": dict(text="Coq theorems over the shared provenance theory and the wrapper / collator / dataset-class tables regenerated from source: for "
                      "closed tables and ANY dataset stack and transform tree, after worker_init every drawable generator slot is Wrk j (seeded from "
                      "the j-th draw of the worker's own global RNG), none is still the copy inherited from the parent; the result is a function "
                      "of the stack's shape and the worker seed; no worker seed lands in two units; table closedness by vm_compute. Tied to the "
@@ -82,8 +83,8 @@ CLAIMED = {
                      "pixel by pixel = label weight = ctx lambda), boxes in bounds, adjusted lambda = area fraction, lambda in [0,1], "
                      "mixed label rows are distributions, partner follows the shuffle mode, other items untouched; model tied to "
                      "/repo by decoding id-encoded real batches with recorded draws on every run.",
-                ref="2 C10", note="Coq kernel+vm_compute; hand-written model coq/C10/Model.v; float32 pixel arithmetic and half-box sqrt "
-                "not modelled (descriptors decoded with stated tolerance)",
+                ref="2 C10", note="Coq kernel+vm_compute; hand-written model coq/C10/Model.v; float32 pixel arithmetic not "
+                "modelled (descriptors decoded with stated tolerance); half-box sizes compared with the exact integer square root per case",
                 technique="Coq proofs (QArith, induction over the batch) over a hand-written model + vm_compute correspondence with the real collator"),
     "C11": dict(text="Coq theorems for all sizes, shapes (arbitrary equal rank), class counts, weights in [0,1] over Q and draw sequences within "
                      "the contract: returned labels are distributions; data and label are mixed with the one drawn partner and weight or both "
@@ -102,7 +103,7 @@ CLAIMED = {
                 ref="2 C12", note="Coq kernel+vm_compute; hand-written model coq/C12/Model.v; that a different seed gives a different "
                 "torch draw is observed, not proved",
                 technique="Coq proofs (list induction, div/mod arithmetic) over a hand-written model + vm_compute correspondence with the real samplers on all ranks"),
-    "C17": dict(text="Coq theorems (16) for every grid, budget, ratio bound, batch size, step counter and contract-satisfying draw sequence: DINO - "
+    "C17": dict(text="Coq theorems for every grid, budget, ratio bound, batch size, step counter and contract-satisfying draw sequence: DINO - "
                      "B*V masks of the grid size, at most floor(B*V*p) non-empty, popcount = num_masked <= target <= floor(ratio_max*P) as loop "
                      "invariant, generation terminates within the fuel; I-JEPA - rows strictly increasing within [0,H*W), predictor rows full "
                      "rectangles of the step's size, encoder rows disjoint from the same sample's predictor rows inside the property's premise "
@@ -119,7 +120,7 @@ CLAIMED = {
                 ref="2 C18", note="Coq kernel+vm_compute; hand-written model coq/C18/Model.v; torch default_collate / pad_sequence "
                 "semantics trusted (operations observed by wrapping them)",
                 technique="Coq proofs (induction over the member list / fields) over a hand-written state-machine model + vm_compute correspondence with the real collators"),
-    "C13": dict(text="Coq theorems (20) for all label layouts, sizes, world sizes, spc, L/U and contract-satisfying draws: class-balanced epoch has "
+    "C13": dict(text="Coq theorems for all label layouts, sizes, world sizes, spc, L/U and contract-satisfying draws: class-balanced epoch has "
                      "exactly spc indices of every class, reuse is even (floor/ceil of spc/k), the pool loop terminates iff the pool is non-empty, "
                      "rank streams interleave into a prefix of the global draw; semi-supervised stream alternates L labeled / U unlabeled by "
                      "position, every aligned block of |pool| picks is a permutation of the pool, ranks are equally long, length modes; weighted "
@@ -128,7 +129,7 @@ CLAIMED = {
                 ref="2 C13 / 7.11", note="Coq kernel+vm_compute; reuses coq/C12/Model.v for class-balanced/weighted, coq/C13/Model.v for the semi "
                 "sampler; distinct per-rank seeds of the semi sampler observed, not proved",
                 technique="Coq proofs (list induction, Permutation, fuel-bounded loops) over hand-written models + vm_compute correspondence with the real samplers on all ranks"),
-    "C19": dict(text="Coq theorems (10) for every wrapped dataset, transform, draw sequence, number of processes, program and UNBOUNDED schedule: "
+    "C19": dict(text="Coq theorems for every wrapped dataset, transform, draw sequence, number of processes, program and UNBOUNDED schedule: "
                      "the log of any sequential history equals the spec (every access returns transform(base i) or the base's exception, a load "
                      "happens exactly when i was not fetched since the last clear, reload after clear); concurrent small-step semantics over "
                      "arbitrary interleavings: dict is a subset of graph(base), no process observes another value, no KeyError escapes "
@@ -138,7 +139,7 @@ CLAIMED = {
                 ref="2 C19 / 7.13", note="Coq kernel+vm_compute; hand-written model coq/C19/Model.v; Manager proxy operations assumed atomic and by value, "
                 "pickling faithful",
                 technique="Coq proofs (invariant over a small-step interleaving semantics, induction over schedules) + vm_compute correspondence incl. deterministic schedule replay on the real class"),
-    "C14": dict(text="Coq theorems (25) for every input size, target, padding, parameter and contract-satisfying draw: crop / simple crop / two-crop "
+    "C14": dict(text="Coq theorems for every input size, target, padding, parameter and contract-satisfying draw: crop / simple crop / two-crop "
                      "windows in bounds with the requested size (overlap recorded truthfully), resized crop in bounds on both branches (guard alone "
                      "sufficient), erasing rectangles and spec-augment masks in bounds and shorter than the parameter, semseg pipelines apply one "
                      "geometry to image and mask with every pad/crop in bounds, patchify/unpatchify and shuffle/unshuffle (argsort of the recorded "
@@ -147,7 +148,7 @@ CLAIMED = {
                 ref="2 C14 / 7.14", note="Coq kernel+vm_compute; hand-written model coq/C14/Model.v; float candidates (sqrt/exp/round) are oracle values whose "
                 "contract is checked per case; interpolation numerics not modelled",
                 technique="Coq proofs (Z div/mod arithmetic, lia/lra, list induction) over a hand-written model + vm_compute correspondence with the real transforms"),
-    "C15": dict(text="Coq theorems (14) re-checked on every run against a model GENERATED from /repo's _scale_strength bodies by an ast translator: for "
+    "C15": dict(text="Coq theorems re-checked on every run against a model GENERATED from /repo's _scale_strength bodies by an ast translator: for "
                      "every scaling class and every compose tree scale 1 restores the constructed ranges (also after any history), scale 0 gives the "
                      "weakest setting, every bound is monotone in the factor, only the last factor matters (Leibniz equality); scheduled transform: "
                      "round-robin arithmetic (the s-th sample of worker r of W is in global batch (s/B)*W+r, bijection, order kept) and the value "
@@ -165,7 +166,7 @@ CLAIMED = {
                 "rearrange and np.argsort semantics trusted (decisions shipped by the harness); 'other data untouched' checked on "
                 "the real objects only",
                 technique="Coq proofs (list induction, QArith) over a hand-written model + vm_compute correspondence with the real wrappers"),
-    "C20": dict(text="Coq theorems (16) for ALL histories (any number of killed invocations at arbitrary primitive-operation boundaries, arbitrary "
+    "C20": dict(text="Coq theorems for ALL histories (any number of killed invocations at arbitrary primitive-operation boundaries, arbitrary "
                      "deletion orders, arbitrary source trees: plain folder, zip, folder of zips): whenever a call returns the local folder is a "
                      "complete copy or a pre-existing manual folder left unchanged (crash_safe), via the invariant 'dst exists => start marker "
                      "present, end marker only on a complete copy'; a completed copy is never redone (no system call), the result is truthful, other "
